@@ -35,8 +35,11 @@ def make_tree(root, r, huge=False):
             f.write(r.randbytes(6000))
             f.truncate((1 << 32) + 100000)
     dirs = [root]
-    for i in range(r.randint(3, 9)):
-        p = os.path.join(r.choice(dirs), r.choice(["d%d" % i, "x" * r.choice([1, 40, 200, 255]) if i == 1 else "dir_%d" % i, "sp ace%d" % i]))
+    for i in range(r.randint(5, 11)):
+        # names next to "." and "..": directories (and, below, files) that only start like them
+        dnames = ["d%d" % i, "x" * r.choice([1, 40, 200, 255]) if i == 1 else "dir_%d" % i, "sp ace%d" % i,
+                  "..data%d" % i, "...%d" % i, ".hidden%d" % i, "..%d" % i, ".x%d" % i]
+        p = os.path.join(r.choice(dirs), dnames[i % 8] if i < 8 else r.choice(dnames))
         if len(os.path.relpath(p, root).split("/")) > 4 or os.path.exists(p):
             continue
         os.makedirs(p)
@@ -45,7 +48,7 @@ def make_tree(root, r, huge=False):
     nf = r.randint(8, 40)
     for i in range(nf):
         d = r.choice(dirs)
-        name = r.choice(["f%d" % i, "file_%d.dat" % i, "n" * r.choice([1, 100, 255]) + "", "\xe4\xf6%d" % i])
+        name = r.choice(["f%d" % i, "file_%d.dat" % i, "n" * r.choice([1, 100, 255]) + "", "\xe4\xf6%d" % i, "..f%d" % i, ".f%d" % i, "...%d" % i])
         p = os.path.join(d, name[:255])
         if os.path.lexists(p):
             continue
